@@ -251,10 +251,10 @@ func runBFS(bin, scratch string, c bfsCfg) (*bfsOut, error) {
 			}
 			if len(r.Viol) > 0 {
 				out.Violations = append(out.Violations, violation{Hist: h, Viol: r.Viol, Known: r.KnownTags, Detail: r.Detail})
-				known := false
+				known := len(r.KnownTags) > 0
 				for _, t := range r.KnownTags {
-					if c.OpenTags[t] {
-						known = true
+					if !c.OpenTags[t] {
+						known = false
 					}
 				}
 				if !known {
